@@ -9,8 +9,8 @@ RULE = (
     "The edit-history state machine of C14 with a model of the documented effect of every "
     "accepted call (add; replace + reset phase configuration + group/rail from the call; "
     "delete subtree; delete node and re-attach its children to its parent keeping a mux's "
-    "input position). After accepted steps (every 3rd in the quick tier, every one in "
-    "thorough): solve, rail_rep, params, limits, phases, tree, save and make_diag succeed "
+    "input position). After a drawn subset of the accepted steps (about 40 % in the quick tier, "
+    "60 % in thorough; never inside a delete + re-add 'move' pair; always at the end): solve, rail_rep, params, limits, phases, tree, save and make_diag succeed "
     "(solve may raise ValueError/RuntimeError if the rebuilt system does too), each lists "
     "exactly the model's components, and a system built from scratch from the model - in "
     "canonical order and in a second, permuted order - returns the same solve()/rail_rep() "
@@ -34,5 +34,5 @@ def body(ops, stats):
 def streams(tier, avoid):
     every = 3 if tier == "quick" else 1
     return [Stream("histories", body, machine=M.make_machine({"C16"}, tier, every),
-                   n={"quick": 90, "thorough": 600}, steps={"quick": 20, "thorough": 35},
+                   n={"quick": 90, "thorough": 200}, steps={"quick": 20, "thorough": 30},
                    reduce=M.reduce_ops, shrink=(tier == "thorough"))]
